@@ -61,7 +61,8 @@ Coherent(e) == <<
     <<~Names(e.rep_digest, e.canon_sha256, e.canon_sha512), "descriptor: digest is not the hash of the serialisation">>,
     <<e.rep_size \notin {e.canon_len, e.raw_len}, "descriptor: size is not the length of the serialisation">>,
     <<e.mj_sha256 # e.raw_sha256, "raw: MarshalJSON() differs from RawBody()">>,
-    <<G(e) # R(e), "reparse: serialisation does not parse back to the getters' values">> >>
+    <<G(e) # R(e), "reparse: serialisation does not parse back to the getters' values">>,
+    <<e.body_mt # "" /\ e.rep_mt # e.body_mt, "mediatype: reported media type contradicts the serialisation">> >>
 OpBad(e) ==
   LET op == <<e.op, e.arg>> IN
   IF op \notin Ops THEN "tooling:op"
